@@ -1078,11 +1078,11 @@ def main(ctx: Ctx) -> int:
                         distinct.add((kind, path, url.split("?")[0] == path, url))
                         stats["requests_per_route"][path] = stats["requests_per_route"].get(path, 0) + 1
                 # ---- (4b) filter pairs and the aged clock on the generated state as well
-                n_eval += run_filter_matrix(ctx, w, client, live_get, stats, distinct, 120 if ctx.thorough else 24)
+                n_eval += run_filter_matrix(ctx, w, client, live_get, stats, distinct, 60 if ctx.thorough else 24)
                 if ctx.thorough or si == 0:
                     sh = clock_shifts(w.app, ctx.thorough)
                     n_eval += run_aged(ctx, w, client, live_get, reached, stats, distinct,
-                                       sh if ctx.thorough and si < 4 else sh[-2:-1], 2)
+                                       sh if ctx.thorough and si < 2 else sh[-2:-1], 2)
                 if len(ctx.coverage["samples"]) < 4:
                     ctx.sample({"backend": kind, "flavour": flavour, "ops": ops[:10], "queue_len": ql, "ids": len(w.ids)})
         # ---- (5) the model's prediction for every queue-view request that ran
